@@ -136,6 +136,8 @@ func init() {
 		"internal/abi.NoEscape":                     func(fr *frame, a []value) value { return a[0] },
 		"internal/stringslite.Clone":                func(fr *frame, a []value) value { return a[0] },
 		"strings.Clone":                             func(fr *frame, a []value) value { return a[0] },
+		"strings.ToLower":                           func(fr *frame, a []value) value { return caseMap(fr, a[0], false) },
+		"strings.ToUpper":                           func(fr *frame, a []value) value { return caseMap(fr, a[0], true) },
 		"strconv.cloneString":                       func(fr *frame, a []value) value { return a[0] },
 		"math.Float64bits":                          func(fr *frame, a []value) value { return mathFloat64bits(a[0].(float64)) },
 
@@ -942,4 +944,47 @@ func symInRange(s sym, lo, hi uint64) *Term {
 		le = OpBvSle
 	}
 	return mkAnd(mkBvCmp(le, mkConst(s.t.sort, lo), s.t), mkBvCmp(le, s.t, mkConst(s.t.sort, hi)))
+}
+
+// caseMap models strings.ToLower / ToUpper.  Concrete strings use the real
+// function; symbolic bytes are mapped with an ite on the ASCII letter range
+// (a symbolic byte >= 0x80 forks and falls back to concretising the string,
+// because non-ASCII case mapping is rune based).
+func caseMap(fr *frame, s value, upper bool) value {
+	if cs, ok := s.(string); ok {
+		if upper {
+			return strings.ToUpper(cs)
+		}
+		return strings.ToLower(cs)
+	}
+	if liaMode {
+		return caseMap(fr, concreteString(s), upper)
+	}
+	b := strBytes(s)
+	for _, x := range b {
+		if sx, ok := x.(sym); ok {
+			if !X.Branch(mkBvCmp(OpBvUlt, sx.t, mkConst(BV(8), 0x80))) {
+				return caseMap(fr, concreteString(s), upper)
+			}
+		} else if x.(uint8) >= 0x80 {
+			return caseMap(fr, concreteString(s), upper)
+		}
+	}
+	out := make([]value, len(b))
+	lo, hi, delta := byte('A'), byte('Z'), uint64(0x20)
+	if upper {
+		lo, hi = 'a', 'z'
+	}
+	for i, x := range b {
+		t := lift(x)
+		in := mkAnd(mkBvCmp(OpBvUle, mkConst(BV(8), uint64(lo)), t), mkBvCmp(OpBvUle, t, mkConst(BV(8), uint64(hi))))
+		var mapped *Term
+		if upper {
+			mapped = mkBv(OpBvSub, t, mkConst(BV(8), delta))
+		} else {
+			mapped = mkBv(OpBvAdd, t, mkConst(BV(8), delta))
+		}
+		out[i] = mkval(mkIte(in, mapped, t), types.Uint8)
+	}
+	return mkstr(out)
 }
